@@ -3,14 +3,39 @@ import sys
 import common
 import core_checks
 import coreops
+import auxcorr
+import fbagen
 
 RULE = ("random models (2-5 reactions, 2-5 metabolites, <= 4 genes, groups) and random op sequences (3-14 ops, ~12 % failing) "
         "over bounds, stoichiometry, rules, objective, add/remove reactions / metabolites / boundaries / genes, *=, nested contexts; raw GLPK "
         "problem read with swiglpk after every step; counted: distinct (model, last three ops) of traces with >= 3 ops")
 
 
+def aux_stage(ctx):
+    """The whole solver problem after a build and a few edits through the public API vs `AuxM.Net.fba` of the content (the theorem
+    `fba_problem_is_flux_balance` is about that builder)."""
+    def f(make, spec, rng):
+        m = make()
+        for _ in range(rng.randint(0, 4)):
+            r = rng.choice(list(m.reactions))
+            k = rng.random()
+            if k < 0.5:
+                lb, ub = sorted([rng.choice([-1000.0, -10.0, -2.5, 0.0, 0.0, 1.5, 10.0, float("-inf")]), rng.choice([1000.0, 10.0, 2.5, 0.0, -1.5, float("inf")])])
+                r.bounds = (lb, ub)
+            elif k < 0.7:
+                r.objective_coefficient = rng.choice([0.0, 1.0, -2.0, 0.5])
+            elif k < 0.85 and len(m.metabolites):
+                r.add_metabolites({rng.choice(list(m.metabolites)): rng.choice([1.0, -1.0, 2.0, -0.5])})
+            else:
+                r.knock_out()
+        if rng.random() < 0.3:
+            m.objective_direction = rng.choice(["max", "min"])
+        return auxcorr.pairs_fba(m)
+    auxcorr.stage(ctx, [("build + edits", f)], fbagen.gen_fba_spec, ctx.scale(80, 1500))
+
+
 def run(ctx):
-    return core_checks.run_core_property(ctx, "CobraModel.Props.C01", kinds=None, oracles=("sync",), quick=300, thorough=6000, rule=RULE, profiles=coreops.PROFILES)
+    return core_checks.run_core_property(ctx, "CobraModel.Props.C01", kinds=None, oracles=("sync",), quick=300, thorough=6000, rule=RULE, profiles=coreops.PROFILES, pre_stage=aux_stage, extra_scan=auxcorr.SCAN)
 
 
 if __name__ == "__main__":
